@@ -15,10 +15,11 @@ PROFILES = {
                    mix={"read": 8, "getter": 0, "bulk": 0.15}),
     "C02": profile(modes=["r+", "r+", "r+", "w+"], zones=ALL_ZONES,
                    flush_vary=True, alphabets=["plain", "plain", "hostile"],
+                   via_h=0.15,
                    mix={"remove": 6, "drop": 1.5, "remove_all": 0.6,
                         "update": 1, "read": 3, "getter": 1}),
     "C03": profile(modes=["r+", "r+", "r+", "w+"], update_time_rich=True,
-                   zones=ALL_ZONES, flush_vary=True,
+                   zones=ALL_ZONES, flush_vary=True, via_h=0.15,
                    alphabets=["plain", "plain", "hostile"],
                    mix={"update": 6, "update_all": 2, "remove": 1,
                         "read": 3, "getter": 1}),
@@ -55,7 +56,7 @@ PROFILES = {
                    mix={"cursor": 3, "read": 2, "getter": 1,
                         "lifecycle": 1.2, "bulk": 0.15}, reads_after=(0, 2)),
     "C05": profile(storages=["csv"], compact=0.5, known_triggers=0.04,
-                   zones=ALL_ZONES,
+                   zones=ALL_ZONES, other_db=0.25,
                    alphabets=["hostile", "reserved", "wide", "hostile", "fuzz",
                               "fuzz"],
                    numbers=["boundary", "boundary", "small", "fuzz", "fuzz"],
@@ -92,7 +93,7 @@ PROFILES = {
                         "drop": 0.7, "read": 1, "getter": 0.5,
                         "lifecycle": 0.3, "cursor": 1}, reads_after=(0, 1)),
     "C13": profile(storages=["csv"], len=(3, 14), max_points=10,
-                   faults_need_atomic_rows=True,
+                   faults_need_atomic_rows=True, via_h=0.2,
                    modes=["r+", "r+", "r+", "w+", "a+"],
                    cfg_override={"flush_on_insert": True},
                    mix={"update": 3, "remove": 3, "remove_all": 0.5,
